@@ -3,6 +3,7 @@ import OrbitModel.Proofs.SnapshotRT
 import OrbitModel.Proofs.GenEqSnap
 import OrbitModel.Proofs.SnapshotRace
 import OrbitModel.Proofs.SnapshotRaceEx
+import OrbitModel.Proofs.SnapshotFetch
 /-!
 # C13 — a snapshot either is refused with an error or loads back to the same log, heads and state
 
@@ -72,6 +73,54 @@ theorem snapshot_written_while_the_log_grows_loads_back {U : List Entry} {acl : 
     ∃ L', load acl de deHeader bs = some L' ∧ (∀ e, e ∈ L'.entries ↔ e ∈ L1.entries) ∧
       values L' = values L1 ∧ sortedHeads L' = sortedHeads L1 :=
   saveRacing_load hde hdh hU hT hM hG hacc h2 h3 hxU hid hclosed hs
+
+/-- **the same, for the loader as the Go port performs it** (`loadFetching`): `ipfslog.NewFromJSON`
+does not use the records, it fetches the ancestry of the recorded heads out of IPFS. On a node that
+holds the blocks of the saved log — the fetch returns the log's entries, `hf` — saving reports an
+error or the fresh store rebuilds the same entries, `Values()` and heads. (The records are still
+decoded: a record that cannot be read back fails the load, which is why the size guards matter.) -/
+theorem save_errors_or_loads_back_through_the_fetcher {U : List Entry} {acl : Acl} {ser : Entry → List Nat}
+    {serHeader : Image → List Nat} {de : List Nat → Option Entry}
+    {deHeader : List Nat → Option (Nat × List Entry × Nat)} {L : Log} (fetchAll : List Entry → List Entry)
+    (hf : fetchAll (sortedHeads L) = L.entries)
+    (hde : ∀ e, de (ser e) = some e)
+    (hdh : ∀ img, deHeader (serHeader img) = some (img.id, img.heads, img.entries.length))
+    (hU : HashDet U) (hT : TieFree U) (hM : ClockMono U) (hG : Good U L)
+    (hacc : ∀ e ∈ L.entries, acl.canAppend e = true ∧ e.sigOk = true)
+    (hid : ∀ e ∈ L.entries, e.logId = L.id) :
+    save ser serHeader L = none ∨
+    ∃ bs L', save ser serHeader L = some bs ∧ loadFetching acl de deHeader fetchAll bs = some L' ∧
+      (∀ e, e ∈ L'.entries ↔ e ∈ L.entries) ∧ values L' = values L ∧ sortedHeads L' = sortedHeads L := by
+  cases hs : save ser serHeader L with
+  | none => exact Or.inl rfl
+  | some bs =>
+    obtain ⟨L', h1, h2, h3, h4⟩ := save_load hde hdh hU hT hM hG hacc hid hs
+    refine Or.inr ⟨bs, L', rfl, ?_, h2, h3, h4⟩
+    rw [loadFetching_save fetchAll hf (fun e _ => hde e) (hdh (imageOf L)) hs]
+    exact h1
+
+/-- … and a snapshot written while the log grew: the fetcher follows the heads of the FIRST read, so
+the fresh store rebuilds exactly that state, whatever was appended during the save — here without
+the "no hole is filled" proviso of the record-based reading, because what arrived later is never
+looked at -/
+theorem snapshot_written_while_the_log_grows_loads_back_through_the_fetcher {U : List Entry} {acl : Acl}
+    {ser : Entry → List Nat} {serHeader : Image → List Nat} {de : List Nat → Option Entry}
+    {deHeader : List Nat → Option (Nat × List Entry × Nat)} {L1 L2 L3 : Log} {y : List Entry}
+    {bs : List Nat} (fetchAll : List Entry → List Entry)
+    (hf : fetchAll (sortedHeads L1) = L1.entries)
+    (hde : ∀ e, de (ser e) = some e)
+    (hdh : ∀ img, deHeader (serHeader img) = some (img.id, img.heads, img.entries.length))
+    (hU : HashDet U) (hT : TieFree U) (hM : ClockMono U) (hG : Good U L1)
+    (hacc : ∀ e ∈ L1.entries, acl.canAppend e = true ∧ e.sigOk = true)
+    (hid : ∀ e ∈ L1.entries, e.logId = L1.id)
+    (h3 : L3.entries = L2.entries ++ y)
+    (hs : saveRacing ser serHeader L1 L2 L3 = some bs) :
+    ∃ L', loadFetching acl de deHeader fetchAll bs = some L' ∧ (∀ e, e ∈ L'.entries ↔ e ∈ L1.entries) ∧
+      values L' = values L1 ∧ sortedHeads L' = sortedHeads L1 := by
+  obtain ⟨L', hj, hent, hI', hnd'⟩ := rejoin hU hM (canAppend := acl.canAppend) hG hacc hid
+  refine ⟨L', ?_, hent, values_unique hU hT hM L' L1 hI' hnd' hG.inv hG.nodup hent,
+    sortedHeads_unique hT L' L1 hI' hG.inv hent⟩
+  rw [loadFetching_saveRacing fetchAll hf h3 (fun e _ => hde e) (hdh (racingImage L1 L2)) hs, hj]
 
 /-- the save of a store at rest is the special case `L1 = L2 = L3` -/
 theorem save_is_racing_save_at_rest (ser : Entry → List Nat) (serHeader : Image → List Nat) (L : Log) :
